@@ -8,3 +8,28 @@ package wallet
 //@ // C17: lock discipline. The accounts map is built privately and only ever swapped in under the lock.
 //@ type Service
 //@   guarded_by mutex: accounts (replaced)
+//@   // established by New (parseAndCheckParameters rejects nil for these)
+//@   valid self.validatorsManager != nil && self.currentEpochProvider != nil
+//@
+//@ // ---- C13 (see services/accountmanager/dirk for the specification functions and the ValidatorToState contract) ----
+//@ func (*Service).ValidatingAccountsForEpoch
+//@   requires nolocks() && epoch <= 9223372036854775807
+//@   assumes call ValidatorsByPubKey#1 (m): m == knownValidators() && (forall i phase0.ValidatorIndex :: in(m, i) ==> m[i] != nil && in(s.accounts, m[i].PublicKey) && !isnil(s.accounts[m[i].PublicKey]))
+//@   loop (*Service).accountsForEpochWithFilter.2
+//@     invariant accounts == s.accounts
+//@     invariant forall i phase0.ValidatorIndex :: in(validatingAccounts, i) ==> in(validators, i) && activeIn(validators[i], epoch, s.farFutureEpoch) && validatingAccounts[i] == accounts[validators[i].PublicKey]
+//@     invariant forall i phase0.ValidatorIndex :: visited(2, i) && activeIn(validators[i], epoch, s.farFutureEpoch) ==> in(validatingAccounts, i)
+//@   ensures result1 == nil
+//@   ensures forall i phase0.ValidatorIndex :: in(result0, i) <==> (in(knownValidators(), i) && activeIn(knownValidators()[i], epoch, s.farFutureEpoch))
+//@   ensures forall i phase0.ValidatorIndex :: in(result0, i) ==> result0[i] == s.accounts[knownValidators()[i].PublicKey]
+//@
+//@ func (*Service).SyncCommitteeAccountsForEpoch
+//@   requires nolocks() && epoch <= 9223372036854775807
+//@   assumes call ValidatorsByPubKey#1 (m): m == knownValidators() && (forall i phase0.ValidatorIndex :: in(m, i) ==> m[i] != nil && in(s.accounts, m[i].PublicKey) && !isnil(s.accounts[m[i].PublicKey]))
+//@   loop (*Service).accountsForEpochWithFilter.2
+//@     invariant accounts == s.accounts
+//@     invariant forall i phase0.ValidatorIndex :: in(validatingAccounts, i) ==> in(validators, i) && syncEligibleIn(validators[i], epoch, s.farFutureEpoch) && validatingAccounts[i] == accounts[validators[i].PublicKey]
+//@     invariant forall i phase0.ValidatorIndex :: visited(2, i) && syncEligibleIn(validators[i], epoch, s.farFutureEpoch) ==> in(validatingAccounts, i)
+//@   ensures result1 == nil
+//@   ensures forall i phase0.ValidatorIndex :: in(result0, i) <==> (in(knownValidators(), i) && syncEligibleIn(knownValidators()[i], epoch, s.farFutureEpoch))
+//@   ensures forall i phase0.ValidatorIndex :: in(result0, i) ==> result0[i] == s.accounts[knownValidators()[i].PublicKey]
